@@ -136,17 +136,18 @@ impl<K: Hash + PartialEq + Eq + core::fmt::Debug> SliceCache<K> {
         }
         let begin = self.free_pointer;
         let end = begin + value.len();
+        let inserted_range = Range::from_begin_len(begin, value.len());
+
+        // evict the entries about to be overwritten before registering the new one, otherwise
+        // when every older entry is evicted the loop reaches the new entry itself
+        removed += self.remove_range(&inserted_range);
+
         self.buffer[begin..end].copy_from_slice(value);
         self.free_pointer = end;
 
-        let inserted_range = Range::from_begin_len(begin, value.len());
         let key = Arc::new(key);
-        self.indexes.insert(key.clone(), inserted_range.clone());
+        self.indexes.insert(key.clone(), inserted_range);
         self.insertions.push_front(key);
-
-        if self.insertions.len() > 1 {
-            removed += self.remove_range(&inserted_range)
-        }
 
         Ok(removed)
     }
